@@ -150,6 +150,7 @@ pub fn config_text(cfg: &str, bundle: bool) -> String {
             b
         ),
         "empty" => format!("{{ generator: 'dense', rules: []{} }}", b),
+        "retain" => format!("{{ rules: []{} }}", b),
         "default" => format!("{{ generator: 'dense'{} }}", b),
         "rootskip" => format!("{{ generator: 'dense', skip_files: ['**/sub/**']{} }}", b),
         "rootapply" => format!("{{ generator: 'dense', apply_to_files: ['**/sub/**']{} }}", b),
